@@ -203,7 +203,7 @@ def generate():
     out = ['(* GENERATED by tools/c28_scan.py on every run -- do not edit.',
            '   cpython_*: derived from the running CPython %s by calling every name of dir(list) / dir(dict);' % t['python'],
            '   tracked_*: read with ast from %s (tracked_method assignments and delegating defs). *)' % ORMTYPES,
-           'From Coq Require Import String List.', 'Import ListNotations.', 'Open Scope string_scope.', '']
+           'From Coq Require Import String List.', '#[local] Open Scope string_scope.', 'Import ListNotations.', '']
     out.append('Definition cpython_list_mutators : list string := %s.' % lst(t['cpython_list_mutators']))
     out.append('Definition cpython_dict_mutators : list string := %s.' % lst(t['cpython_dict_mutators']))
     out.append('Definition cpython_list_readers : list string := %s.' % lst(t['cpython_list_readers']))
